@@ -72,13 +72,6 @@ theorem copy_eq (st : Store) (g : Grid) (h : g.coords.WF) :
   intro j hj
   simp [Store.push, List.getElem?_append_left hj]
 
-theorem zip3_maps (a : List RegAxis) :
-    zip3? (a.map (·.delta)) (a.map (·.dim)) (a.map (·.zero)) = some a := by
-  simp only [zip3?, List.length_map, and_self, if_true, Option.some.injEq]
-  induction a with
-  | nil => rfl
-  | cons x xs ih => simp only [List.map_cons, List.zip_cons_cons, List.zipWith_cons_cons, ih]
-
 /-- **`Grid.from_dict(g.to_dict())` is `g`** (coordinates, system and stored weights). -/
 theorem dict_roundtrip (g : Grid) : Grid.fromDict g.toDict = some g := by
   obtain ⟨s, c, w⟩ := g
@@ -172,6 +165,18 @@ theorem copies_untouched_inplace (st : Store) (i j : Nat) (g : Grid) (h : i ≠ 
 theorem copies_untouched_push (st : Store) (j : Nat) (g : Grid) (h : j < st.length) :
     (st.push g)[j]? = st[j]? := by
   simp [Store.push, List.getElem?_append_left h]
+
+/-- **Frame property of the whole protocol** (what the correspondence re-reads after every request):
+apart from `reset`, a request changes at most one already existing slot. -/
+theorem stepStore_frame (st st' : Store) (toks : List String) (out : String)
+    (h : stepStore st toks = some (st', out)) (hr : toks ≠ ["reset"]) :
+    ∃ i, ∀ j, j < st.length → j ≠ i → st'[j]? = st[j]? := by
+  simp only [stepStore, hr, if_false, Option.map_eq_some_iff, Prod.mk.injEq] at h
+  obtain ⟨⟨e, o⟩, _, rfl, _⟩ := h
+  cases e with
+  | keep => exact ⟨0, fun _ _ _ => rfl⟩
+  | push g => exact ⟨0, fun j hj _ => copies_untouched_push st j g hj⟩
+  | update i g => exact ⟨i, fun j _ hji => copies_untouched_inplace st i j g (Ne.symm hji)⟩
 
 /-! ## The code before the repairs -/
 
